@@ -123,6 +123,32 @@ impl Scenario for C17Encodings {
             cx.tape.end_group();
             cx.tape.begin_group();
             let (enc, bom, label) = *cx.tape.pick(&ENCODINGS);
+            // one document in forty is made large: a block comment in front of it carries a run of non-BMP characters
+            // across a power-of-two byte offset of the encoded file (4 KiB ... 1 MiB), where a decoder that works in
+            // blocks would cut a surrogate pair, a 4-byte unit or a UTF-8 sequence in two
+            let text: String = if cx.tape.chance(1, 40) {
+                let boundary = *cx.tape.pick(&[4096usize, 8192, 65_536, 1 << 20]);
+                let unit = match enc {
+                    Enc::Utf16Le | Enc::Utf16Be => 2,
+                    Enc::Utf32Le | Enc::Utf32Be => 4,
+                    _ => 1,
+                };
+                let bom_bytes = if bom { if unit == 1 { 3 } else { unit } } else { 0 };
+                // characters (= bytes / unit for the ASCII filler) in front of the run of emojis
+                let before = (boundary - bom_bytes) / unit;
+                let jitter = cx.tape.draw(8) as usize;
+                let filler = before.saturating_sub(3 + 24 + jitter);
+                let mut big = String::with_capacity(text.len() + filler + 300);
+                big.push_str("/* ");
+                big.extend(std::iter::repeat_n('x', filler));
+                big.extend(std::iter::repeat_n('\u{1F600}', 24));
+                big.push_str(" */\n");
+                big.push_str(&text);
+                cx.probe("large-file-with-non-BMP-run-across-a-block-boundary");
+                big
+            } else {
+                text.clone()
+            };
             // Latin-1: the reference is the text restricted to Latin-1, and the bytes must be invalid UTF-8
             let (bytes, reference_text) = if enc == Enc::Latin1 {
                 let b = encode(&text, enc, false);
